@@ -181,6 +181,14 @@ def render(obj, ospec, req, conf_dict, live_conf=None, observe=None):
             return format(res, "")
         if req['mode'] == 'plain':
             return res.plain_text() if no_color else str(res)
+        if req['mode'] == 'slice':
+            return str(res[0:len(res)]) if len(ospec.get('fmt', '')) % 2 else str(res[:])
+        if req['mode'] == 'fixed':
+            return str(res.fixed_len(len(res)))
+        if req['mode'] == 'compared':
+            # the result is compared with a copy of itself, and a result of the same request with it
+            same = (res == res.get_ch_text())
+            return str(res) if same else "<result differs from its own copy>" + str(res)
         if req['mode'] == 'lines_join':
             return str(CHText("\n").join(res))
         if req['mode'] == 'whole_then_lines':
